@@ -1,7 +1,9 @@
 (* C09 — merging count-min sketches adds the counts cell by cell, as documented.
    Linear part (any two states with counters in range).  Log part: C09_log_* (CmsLogProofs.v). *)
 From Coq Require Import ZArith List.
+From Coq Require Import Floats.PrimFloat.
 From Sketchnu Require Import Machine CmsLinear CmsLinearProofs.
+From Sketchnu Require CmsLog CmsLogProofs.
 Import ListNotations.
 Open Scope Z_scope.
 
@@ -43,3 +45,53 @@ Example C09_lin_nonvacuous :
   let b := {| cms := fun _ c => Z.of_nat c; n_added := 7; n_records := 2 |} in
   Rng a /\ cms (merge a b) 0%nat 0%nat = cap - 1 /\ cms (merge a b) 0%nat 1%nat = cap /\ cms (merge a b) 0%nat 2%nat = cap /\ n_added (merge a b) = 12.
 Proof. split; [intros r c; cbn; rewrite cap_val; split; discriminate|]. vm_compute. repeat split; reflexivity. Qed.
+
+(* ---------------- log8 / log16 ----------------
+   decode stands for _counter2value at the integer counters (read from the implementation and checked, DESIGN 3.4). *)
+Import CmsLog.
+
+Theorem C09_log_counters : forall nr umax max_count decode castc (a b : lsk),
+  ln_added (merge_log nr umax max_count decode castc a b) = ln_added a + ln_added b /\
+  ln_records (merge_log nr umax max_count decode castc a b) = ln_records a + ln_records b /\
+  lrs (merge_log nr umax max_count decode castc a b) = lrs a.
+Proof. exact CmsLogProofs.C09_log_counters. Qed.
+Print Assumptions C09_log_counters.
+
+(* once the decoded sum reaches max_count the result is the maximum counter *)
+Theorem C09_log_ceiling : forall nr umax max_count decode castc (a b : Z),
+  let v := (decode a + decode b)%float in
+  (v <=? z2f nr)%float = false -> (u64_to_float max_count <=? v)%float = true ->
+  merge_cell nr umax max_count decode castc a b = umax.
+Proof. exact CmsLogProofs.C09_log_ceiling. Qed.
+Print Assumptions C09_log_ceiling.
+
+(* inside the reserved range the result is the (exact) sum *)
+Theorem C09_log_reserved_shape : forall nr umax max_count decode castc (a b : Z),
+  let v := (decode a + decode b)%float in
+  (v <=? z2f nr)%float = true -> merge_cell nr umax max_count decode castc a b = castc (f2z_trunc v).
+Proof. exact CmsLogProofs.C09_log_reserved_shape. Qed.
+Print Assumptions C09_log_reserved_shape.
+
+(* per-configuration reflection: if the boolean grid check over ALL (umax+1)^2 counter pairs of a concrete
+   configuration evaluates to true (the harness evaluates it by vm_compute on the tables read from the
+   implementation), then for every pair: never below either input, within range, commutative, exact sum in
+   the reserved range, empty operand changes nothing *)
+Theorem C09_log_grid : forall nr umax max_count decode castc,
+  merge_grid_b nr umax max_count decode castc = true ->
+  forall a b : Z, 0 <= a <= umax -> 0 <= b <= umax ->
+  let m := merge_cell nr umax max_count decode castc a b in
+  Z.max a b <= m <= umax /\ Z.min (a + b) (nr + 1) <= m /\
+  m = merge_cell nr umax max_count decode castc b a /\ (a + b <= nr -> m = a + b) /\ (b = 0 -> m = a).
+Proof. exact CmsLogProofs.merge_grid_sound. Qed.
+Print Assumptions C09_log_grid.
+
+(* nearest: between the reserved range and the ceiling the chosen counter's decoded value is at least as
+   close to the decoded sum as any other counter's, for every pair of a configuration whose grid check holds *)
+Theorem C09_log_nearest_grid : forall nr umax max_count decode castc,
+  merge_nearest_grid_b nr umax max_count decode castc = true ->
+  forall a b c : Z, 0 <= a <= umax -> 0 <= b <= umax -> 0 <= c <= umax ->
+  let v := (decode a + decode b)%float in
+  (v <=? z2f nr)%float = false -> (u64_to_float max_count <=? v)%float = false ->
+  (abs (decode (merge_cell nr umax max_count decode castc a b) - v) <=? abs (decode c - v))%float = true.
+Proof. exact CmsLogProofs.merge_nearest_grid_sound. Qed.
+Print Assumptions C09_log_nearest_grid.
